@@ -126,7 +126,7 @@ fn raw_equivalent(op: &Op, out: &Outcome, gs: &GState) -> (Op, Outcome) {
         // a drop swallows the result: what happened is known from the table (an open file is always removed)
         Op::WDropFile(f) => (Op::CloseFile(*f), with(if gs.files.iter().any(|x| x.handle == *f) { "ok".into() } else { "err BadHandle".to_string() })),
         Op::WCloseDir(d) => (Op::CloseDir(*d), out.clone()),
-        Op::WDropDir(d) => (Op::CloseDir(*d), with(if gs.dirs.iter().any(|x| x.handle == *d) { "ok".into() } else { "err BadHandle".to_string() })),
+        Op::WDropDir(d) => (Op::CloseDir(*d), with(if gs.dirs.iter().any(|x| x.handle == *d) || gs.ghost_dirs.contains(d) { "ok".into() } else { "err BadHandle".to_string() })),
         Op::WCloseVolume(v) => (Op::CloseVolume(*v), out.clone()),
         Op::WDropVolume(v) => {
             let open = gs.vols.iter().any(|x| x.handle == *v);
@@ -1036,6 +1036,51 @@ fn finish(mut rep: Report, model: &Model, rule: &str) -> Report {
     rep
 }
 
+/// The wrapper layer exercised once on a fresh medium, with nothing around it (run in a CHILD process: an
+/// infinite recursion in the glue ends in a stack overflow, which aborts the process).
+pub fn io_probe() {
+    let mut rng = Rng::new(0x10);
+    let sc = make_scenario(&mut rng, &ScOpts { fat32: Some(false), big_tree: false, limits: Some((4, 4, 1)), ..Default::default() });
+    let mut sess = Session::new(sc.blocks.clone(), sc.limits, sc.id_offset);
+    let v = sess.exec(&Op::OpenVolume(sc.vols[0].slot)).handle().expect("open_volume");
+    let d = sess.exec(&Op::OpenRoot(v)).handle().expect("open_root");
+    let f = sess.exec(&Op::OpenFile(d, "PROBE.BIN".into(), Mode::ReadWriteCreate)).handle().expect("create");
+    let steps = [Op::IoWrite(f, vec![1, 2, 3, 4, 5]), Op::IoFlush(f), Op::IoSeekStart(f, 1), Op::IoRead(f, 3), Op::IoSeekEnd(f, -2), Op::IoSeekCur(f, 1), Op::WLength(f), Op::WOffset(f), Op::WEof(f), Op::IoWrite(f, vec![]), Op::IoRead(f, 0), Op::WCloseFile(f), Op::WChangeDir(d, ".".into())];
+    let want = ["ok n 5", "ok", "ok n 1", "ok b 020304", "ok n 3", "ok n 4", "ok n 5", "ok n 4", "ok f", "ok n 0", "ok b -", "ok", ""];
+    for (op, w) in steps.iter().zip(want.iter()) {
+        let o = sess.exec(op);
+        println!("ioprobe {} => {}", op.show(), o.res);
+        if !w.is_empty() && o.res != *w {
+            println!("ioprobe MISMATCH: `{}` answered `{}`, expected `{}`", op.show(), o.res, w);
+            std::process::exit(3);
+        }
+    }
+}
+
+/// Runs `io_probe` in a child process and turns a crash or a wrong answer into a failing input; `false` = the
+/// wrapper layer must not be used in-process.
+fn io_probe_guard(rep: &mut Report) -> bool {
+    rep.oracle_checks += 1;
+    let exe = match std::env::current_exe() { Ok(e) => e, Err(_) => return false };
+    match std::process::Command::new(exe).arg("ioprobe").output() {
+        Ok(out) if out.status.success() => {
+            rep.count("wrapper:io-probe-ok");
+            true
+        }
+        Ok(out) => {
+            let so = String::from_utf8_lossy(&out.stdout).to_string();
+            let se = String::from_utf8_lossy(&out.stderr).to_string();
+            let last = so.lines().last().unwrap_or("").to_string();
+            let crashed = out.status.code().is_none() || se.contains("overflowed its stack");
+            rep.violation("impl-vs-spec", if crashed { "io-glue-crash" } else { "io-glue-wrong-answer" },
+                &format!("the embedded-io / RAII wrapper layer, exercised on a fresh file (write 5 bytes, flush, seek, read 3, …): {}; last completed step: `{}`", if crashed { format!("the process was killed ({})", truncate(se.trim(), 120)) } else { truncate(&last, 160) }, truncate(&last, 120)),
+                J::obj(vec![("ops", J::Arr(so.lines().map(|l| J::s(l.to_string())).collect())), ("stderr", J::s(truncate(&se, 600)))]));
+            false
+        }
+        Err(_) => false,
+    }
+}
+
 /// Bounded-exhaustive part of the correspondence: EVERY sequence of `len` operations over a small alphabet
 /// (create / reopen in several modes, short and cluster-crossing writes, seek, read, flush, close, delete,
 /// mkdir, list, on two names in the root of a tiny volume with `free` free clusters) is run on the crate and
@@ -1094,6 +1139,7 @@ fn enumerate_histories(ctx: &Ctx, rep: &mut Report, model: &mut Model, prop: &st
 
 pub fn c01(ctx: &Ctx) -> Report {
     let mut rep = Report::new("C01");
+    let wrap_ok = io_probe_guard(&mut rep);
     let mut model = Model::spawn(&ctx.model_path);
     let mut rng = Rng::new(ctx.seed ^ 0xC01);
     let n = budget(ctx, 60, 1500);
@@ -1102,12 +1148,14 @@ pub fn c01(ctx: &Ctx) -> Report {
         let sc = make_scenario(&mut rng, &o);
         let mut cfg = RunCfg::base(budget(ctx, 60, 90), Profile::rw());
         cfg.quiesce_every = 0;
+        // every second history goes (for a third of its calls) through the RAII wrappers and the embedded-io traits
+        cfg.profile.wrap = wrap_ok && k % 2 == 1;
         run_case(&mut rng, &sc, &cfg, &mut model, &mut rep, &format!("c01/{}/{k}", ctx.seed));
     }
     max_file_size_case(&mut rep, "C01");
     if ctx.thorough {
-        enumerate_histories(ctx, &mut rep, &mut model, "c01", false, None, 3, 1, 0);
-        enumerate_histories(ctx, &mut rep, &mut model, "c01", true, Some(1), 4, 9, ctx.seed as usize);
+        enumerate_histories(ctx, &mut rep, &mut model, "c01", false, None, 3, 2, ctx.seed as usize);
+        enumerate_histories(ctx, &mut rep, &mut model, "c01", true, Some(1), 4, 45, ctx.seed as usize);
     } else {
         enumerate_histories(ctx, &mut rep, &mut model, "c01", ctx.seed % 2 == 0, Some(1), 2, 1, 0);
     }
@@ -1174,13 +1222,13 @@ pub fn c03(ctx: &Ctx) -> Report {
     }
     if ctx.thorough {
         enumerate_histories(ctx, &mut rep, &mut model, "c03", false, Some(2), 3, 1, 0);
-        enumerate_histories(ctx, &mut rep, &mut model, "c03", true, None, 3, 1, 0);
-        enumerate_histories(ctx, &mut rep, &mut model, "c03", false, Some(1), 4, 8, ctx.seed as usize);
+        enumerate_histories(ctx, &mut rep, &mut model, "c03", true, None, 3, 3, ctx.seed as usize);
+        enumerate_histories(ctx, &mut rep, &mut model, "c03", false, Some(1), 4, 40, ctx.seed as usize);
     } else {
         enumerate_histories(ctx, &mut rep, &mut model, "c03", false, None, 2, 1, 0);
         enumerate_histories(ctx, &mut rep, &mut model, "c03", true, Some(2), 3, 15, ctx.seed as usize);
     }
-    finish(rep, &model, "bounded-exhaustive: every sequence of 2 (thorough: 3, and every 8th of length 4) operations over a 15-letter alphabet (create / reopen / write short and cluster-crossing / seek / read / flush / close / delete / mkdir / list on two names) on tiny FAT16 and FAT32 volumes; then histories including failing calls (disk full, name clashes, limit errors, bad handles and names) on volumes with 0,1,2,5 free clusters, small FAT16 roots, FAT32; after every single call the Lean fsck (chains in range / acyclic / terminated / unshared / long enough, unique names, dot entries, nothing after the end marker, with the pending state of open files) runs on the implementation's medium; distinct = histories")
+    finish(rep, &model, "bounded-exhaustive: every sequence of 2 (thorough: 3 on FAT16, every 3rd of length 3 on FAT32 and every 40th of length 4) operations over a 15-letter alphabet (create / reopen / write short and cluster-crossing / seek / read / flush / close / delete / mkdir / list on two names) on tiny FAT16 and FAT32 volumes; then histories including failing calls (disk full, name clashes, limit errors, bad handles and names) on volumes with 0,1,2,5 free clusters, small FAT16 roots, FAT32; after every single call the Lean fsck (chains in range / acyclic / terminated / unshared / long enough, unique names, dot entries, nothing after the end marker, with the pending state of open files) runs on the implementation's medium; distinct = histories")
 }
 
 pub fn c04(ctx: &Ctx) -> Report {
@@ -1229,8 +1277,8 @@ pub fn c05(ctx: &Ctx) -> Report {
     }
     max_file_size_case(&mut rep, "C05");
     if ctx.thorough {
-        enumerate_histories(ctx, &mut rep, &mut model, "c05", false, Some(1), 3, 1, 0);
-        enumerate_histories(ctx, &mut rep, &mut model, "c05", true, Some(2), 4, 5, ctx.seed as usize);
+        enumerate_histories(ctx, &mut rep, &mut model, "c05", false, Some(1), 3, 2, ctx.seed as usize);
+        enumerate_histories(ctx, &mut rep, &mut model, "c05", true, Some(2), 4, 45, ctx.seed as usize);
     } else {
         enumerate_histories(ctx, &mut rep, &mut model, "c05", ctx.seed % 2 == 1, Some(1), 3, 11, ctx.seed as usize);
     }
@@ -1304,13 +1352,16 @@ pub fn c07(ctx: &Ctx) -> Report {
 
 pub fn c08(ctx: &Ctx) -> Report {
     let mut rep = Report::new("C08");
+    let wrap_ok = io_probe_guard(&mut rep);
     let mut model = Model::spawn(&ctx.model_path);
     let mut rng = Rng::new(ctx.seed ^ 0xC08);
     let n = budget(ctx, 84, 2800);
     for k in 0..n {
         let o = ScOpts { fat32: Some(k % 5 == 0), multi_volume: k % 2 == 0, limits: Some(LIMITS[k % LIMITS.len()]), big_tree: true, ..Default::default() };
         let sc = make_scenario(&mut rng, &o);
-        let cfg = RunCfg::base(budget(ctx, 60, 120), Profile::handles());
+        let mut cfg = RunCfg::base(budget(ctx, 60, 120), Profile::handles());
+        // every third history closes / drops / changes directory through the RAII wrappers
+        cfg.profile.wrap = wrap_ok && k % 3 == 2;
         run_case(&mut rng, &sc, &cfg, &mut model, &mut rep, &format!("c08/{}/{k}", ctx.seed));
         reenter_case(&mut rng, &sc, &mut model, &mut rep, &format!("c08r/{}/{k}", ctx.seed));
     }
